@@ -90,6 +90,7 @@ type funDecl struct {
 // TB is the term builder / context. One per govc run (terms are shared across obligations).
 type TB struct {
 	tab    map[string]*Term
+	ftab   map[fastKey]*Term
 	nextID int
 	vars   map[string]*Term
 	funs   map[string]*funDecl
@@ -97,10 +98,45 @@ type TB struct {
 }
 
 func NewTB() *TB {
-	return &TB{tab: map[string]*Term{}, vars: map[string]*Term{}, funs: map[string]*funDecl{}, fresh: map[string]int{}}
+	return &TB{ftab: map[fastKey]*Term{}, tab: map[string]*Term{}, vars: map[string]*Term{}, funs: map[string]*funDecl{}, fresh: map[string]int{}}
+}
+
+type fastKey struct {
+	op, name   string
+	sort       *Sort
+	i, j       int
+	a0, a1, a2 int
 }
 
 func (tb *TB) mk(t *Term) *Term {
+	// fast path: small applications without constants, binders or patterns (the bulk of all terms)
+	if t.Val == nil && len(t.Args) <= 3 && len(t.Bound) == 0 && len(t.Pats) == 0 {
+		fk := fastKey{op: t.Op, name: t.Name, sort: t.Sort, i: t.I, j: t.J, a0: -1, a1: -1, a2: -1}
+		if len(t.Args) > 0 {
+			fk.a0 = t.Args[0].id
+		}
+		if len(t.Args) > 1 {
+			fk.a1 = t.Args[1].id
+		}
+		if len(t.Args) > 2 {
+			fk.a2 = t.Args[2].id
+		}
+		if x, ok := tb.ftab[fk]; ok {
+			return x
+		}
+		tb.nextID++
+		t.id = tb.nextID
+		for _, a := range t.Args {
+			if a.hasBV {
+				t.hasBV = true
+			}
+		}
+		if t.Op == "bound" {
+			t.hasBV = true
+		}
+		tb.ftab[fk] = t
+		return t
+	}
 	var sb strings.Builder
 	sb.WriteString(t.Op)
 	sb.WriteByte('|')
